@@ -109,4 +109,17 @@ RenderPreLine(data, k, lower) ==
     IN  PadTo(raw, 48) \o PadTo([j \in 1..Len(chunk) |-> TextChar(chunk[j])], 16)
 RenderBMC(data, lower) == [k \in 1..NLines(data, 16) |-> RenderBMCLine(data, k, lower)]
 RenderPre(data, lower) == [k \in 1..NLines(data, 16) |-> RenderPreLine(data, k, lower)]
+
+(***************************************************************************)
+(* Reading a dump FILE (io_drawer/dump.py parse_dump_file): the formats    *)
+(* are tried in `order` and the first one that yields any byte wins.       *)
+(* A line of the BMC format starts with four hex digits, so the pre-BMC    *)
+(* template reads two of them as a data byte before it gives up: trying    *)
+(* the pre-BMC format first (deviation "prefirst") misreads every BMC      *)
+(* dump - MC_HexDump_prefirst, refuted by TLC.                             *)
+(* A comment line is a line that contributes no byte under either format.  *)
+(***************************************************************************)
+ReadDumpFile(lines, order) ==
+    LET a == Parse(lines, order[1]) IN IF a # <<>> THEN a ELSE Parse(lines, order[2])
+IsComment(line) == ParseLine(line, FmtBMC) = <<>> /\ ParseLine(line, FmtPre) = <<>>
 =============================================================================
